@@ -352,6 +352,10 @@ def run(tier):
     import x17_msgiter
     if x17_msgiter.enabled():
         x17_msgiter.run_part(ck, tier)
+    # extension X25: the sinks that receive a message in pieces through push(len, data) (checks/x25_logsink.py, docs/X25_logsink.md)
+    import x25_logsink
+    if x25_logsink.enabled():
+        x25_logsink.run_part(ck, tier)
     return ck.finish()
 
 
@@ -361,6 +365,9 @@ def replay(path):
     if det.get("part") == "x17":
         import x17_msgiter
         return x17_msgiter.replay(det, path)
+    if det.get("part") == "x25":
+        import x25_logsink
+        return x25_logsink.replay(det, path)
     beh = det.get("behaviour")
     if not beh:
         print(json.dumps(det, indent=1)[:4000])
